@@ -225,13 +225,30 @@ CHECKS['C03'] = {
     'technique': 'Hypothesis-generated histories on a cluster simulator, per-request ordering oracle against true states',
 }
 
+CHECKS['C17'] = {
+    'engine': 'E1-clustersim',
+    'category': 'exploration',
+    'text': ('Generated cluster episodes bringing real instances (Master and non-Master) to every Supvisors state by a real '
+             'history (late boots, crashes, restarts, conflicts kept by the USER conciliation, stops that last during '
+             'restart / shutdown, USER synchronisation) under storms of XML-RPCs: every public method with valid and '
+             'invalid parameter values. Per call, golden gating table transcribed from the statement and docs/xml_rpc.rst: '
+             'BAD_SUPVISORS_STATE outside the documented states and not inside them, BAD_NAME for names absent from the '
+             'whole configuration, INCORRECT_PARAMETERS for unknown strategies, NOT_MANAGED for unmanaged applications; a '
+             'call rejected with one of these faults emits no request and leaves FSM state, Master, Starter / Stopper '
+             'activity unchanged. The (method x state) cells reached are listed in the evidence class distribution. One '
+             'defect repaired (restart_application on an unmanaged application).'),
+    'design_ref': 'DESIGN.md 5/C17',
+    'note': CLUSTER_NOTE,
+    'technique': 'Hypothesis-generated histories and XML-RPC storms on a cluster simulator, golden state-gating table',
+}
+
 HOOK_COMMITS = []
 
 ENGINES = [
     {'name': 'E1-clustersim', 'path': 'clustersim/', 'kind_free_text':
         'deterministic cluster simulator: N real Supvisors instances in one process on a fake OS / network / clock; '
         'Hypothesis generates configuration and history; per-property monitors',
-     'serves_properties': ['C01', 'C02', 'C03', 'C04', 'C07', 'C08', 'C09', 'C10', 'C12', 'C14', 'C16']},
+     'serves_properties': ['C01', 'C02', 'C03', 'C04', 'C07', 'C08', 'C09', 'C10', 'C12', 'C14', 'C16', 'C17']},
     {'name': 'E3-solo', 'path': 'clustersim/solo.py', 'kind_free_text':
         'one real instance with puppet peers / pure component harnesses driven by Hypothesis',
      'serves_properties': ['C11', 'C15', 'C18', 'C20']},
@@ -240,4 +257,4 @@ ENGINES = [
 _PENDING = 'check not built yet in this round (the technique applies; see DESIGN.md section 5)'
 NOT_APPLICABLE = {pid: _PENDING for pid in
                   ['C05', 'C06', 'C13',
-                   'C17', 'C19']}
+                   'C19']}
